@@ -4,25 +4,37 @@ From Coq Require Import String List Bool Arith NArith.
 From S2T Require Import Lib.PyStr C08.Model C08.Flow Gen.C08Skeletons Gen.C08Tables.
 Import ListNotations.
 
-(* every skeleton: exactly one guard, at least one delivery point, and the analysis accepts it *)
-Definition skeleton_ok (sk : gs) : bool :=
-  guarded sk && Nat.eqb (count_guard sk) 1%nat && Nat.leb 1%nat (count_yield sk).
+(* every skeleton: exactly one guard, at least one delivery point, the analysis accepts it, and — for the
+   skeleton of a whole generator / callee (strict) — no execution with the detector true ends silently *)
+Definition skeleton_ok (strict : bool) (sk : gs) : bool :=
+  guarded sk && Nat.eqb (count_guard sk) 1%nat && Nat.leb 1%nat (count_yield sk) && (negb strict || rejects sk).
 
-Theorem C08_all_guarded : forallb (fun p => skeleton_ok (snd p)) skeletons = true.
+Theorem C08_all_guarded : forallb (fun p => skeleton_ok (snd (fst p)) (snd p)) skeletons = true.
 Proof. vm_compute. reflexivity. Qed.
 Print Assumptions C08_all_guarded.
 
-(* read_docx/xlsx/pptx/xls/ppt/doc(+_parse_content)/odt/ods/odp/odg/odf/pdf/epub and the 7z route:
-   when the detector answers true, no execution delivers a result *)
+(* read_docx/xlsx/pptx/xls/ppt/doc(+_parse_content)/odt/ods/odp/odg/odf/pdf/epub, the 7z route and the ZIP
+   pass-1 member body: when the detector answers true, no execution delivers a result *)
 Theorem C08_no_result_before_rejection :
-  forall name sk n o, In (name, sk) skeletons -> run sk n o -> n = O.
+  forall name strict sk n o, In (name, strict, sk) skeletons -> run sk n o -> n = O.
 Proof.
-  intros name sk n o H R. pose proof C08_all_guarded as A. rewrite forallb_forall in A.
-  specialize (A (name, sk) H). unfold skeleton_ok in A. cbn [snd] in A.
-  apply andb_true_iff in A as [A _]. apply andb_true_iff in A as [A _].
+  intros name strict sk n o H R. pose proof C08_all_guarded as A. rewrite forallb_forall in A.
+  specialize (A (name, strict, sk) H). unfold skeleton_ok in A. cbn [fst snd] in A.
+  apply andb_true_iff in A as [A _]. apply andb_true_iff in A as [A _]. apply andb_true_iff in A as [A _].
   exact (guarded_sound sk n o A R).
 Qed.
 Print Assumptions C08_no_result_before_rejection.
+
+(* ... and it ends with an exception: never a normal end, a bare `return` or a `break` (an encrypted input
+   cannot come back as an empty result) *)
+Theorem C08_rejected_never_silent :
+  forall name sk n o, In (name, true, sk) skeletons -> run sk n o -> n = O /\ o = A.
+Proof.
+  intros name sk n o H R. pose proof C08_all_guarded as G. rewrite forallb_forall in G.
+  specialize (G (name, true, sk) H). unfold skeleton_ok in G. cbn [fst snd negb orb] in G.
+  apply andb_true_iff in G as [_ G]. exact (rejects_sound sk n o G R).
+Qed.
+Print Assumptions C08_rejected_never_silent.
 
 Theorem C08_skeleton_count : List.length skeletons = 16%nat.
 Proof. vm_compute. reflexivity. Qed.
